@@ -199,19 +199,29 @@ def lower (s : Bytes) : Bytes := s.map fun b => if 65 ≤ b && b ≤ 90 then b +
 
 def str (s : String) : Bytes := s.toUTF8.toList
 
+/-! byte-list constants (explicit so that the kernel can evaluate the model in `decide` proofs) -/
+def tyOpen : Bytes := [115, 116, 114, 101, 97, 109, 46, 111, 112, 101, 110]  -- "stream.open"
+def tyDelta : Bytes := [115, 116, 114, 101, 97, 109, 46, 100, 101, 108, 116, 97]  -- "stream.delta"
+def tyClose : Bytes := [115, 116, 114, 101, 97, 109, 46, 99, 108, 111, 115, 101]  -- "stream.close"
+def tyError : Bytes := [115, 116, 114, 101, 97, 109, 46, 101, 114, 114, 111, 114]  -- "stream.error"
+def tyCancel : Bytes := [115, 116, 114, 101, 97, 109, 46, 99, 97, 110, 99, 101, 108]  -- "stream.cancel"
+def tySnapshot : Bytes := [115, 116, 114, 101, 97, 109, 46, 115, 110, 97, 112, 115, 104, 111, 116]  -- "stream.snapshot"
+def tyFinish : Bytes := [115, 116, 114, 101, 97, 109, 46, 102, 105, 110, 105, 115, 104]  -- "stream.finish"
+
 def parseType (s : Bytes) : Option EType :=
-  if s = str "stream.open" then some .open_
-  else if s = str "stream.delta" then some .delta
-  else if s = str "stream.close" then some .close
-  else if s = str "stream.error" then some .error
-  else if s = str "stream.cancel" then some .cancel
-  else if s = str "stream.snapshot" then some .snapshot
-  else if s = str "stream.finish" then some .finish
+  if s = tyOpen then some .open_
+  else if s = tyDelta then some .delta
+  else if s = tyClose then some .close
+  else if s = tyError then some .error
+  else if s = tyCancel then some .cancel
+  else if s = tySnapshot then some .snapshot
+  else if s = tyFinish then some .finish
   else none
 
-def keyDefault : Bytes := str "main"
-def keyFinish : Bytes := str "__finish__"
-def visPublic : Bytes := str "public"
+def keyDefault : Bytes := [109, 97, 105, 110]  -- "main"
+def keyFinish : Bytes := [95, 95, 102, 105, 110, 105, 115, 104, 95, 95]  -- "__finish__"
+def visPublic : Bytes := [112, 117, 98, 108, 105, 99]  -- "public"
+def flushInfix : Bytes := [47, 102, 108, 117, 115, 104, 47]  -- "/flush/"
 
 /-- `normalizeMessageEventAppend` (= `normalizeClusterMessageEventAppend`): `none` = ErrInvalidArgument -/
 def normalize (r : RawEvent) : Option Event :=
@@ -334,7 +344,7 @@ def openStates (cache : List (MsgKey × Session)) (mk : MsgKey) : List (Bytes ×
 
 /-- `finishFlushMessageEvent` -/
 def flushEvent (fin : Event) (kl : Bytes × Lane) : Event :=
-  { fin with id := fin.id ++ str "/flush/" ++ kl.1, key := kl.1, ty := .close,
+  { fin with id := fin.id ++ flushInfix ++ kl.1, key := kl.1, ty := .close,
              pl := mergeTerminal fin.pl kl.2.snap (snapIsJSON kl.2.snap) }
 
 /-- `markTerminalPersisted` -/
